@@ -63,7 +63,7 @@ def gen_request(rng, for_model_only=True):
     elif kind < 0.5:
         body = "@" + rand_text(rng)
     elif kind < 0.6:
-        body = rand_text(rng, 20).encode("utf-8", "surrogatepass") + rng.choice([b"", b"\xff\xfe", b"\xc3"])
+        body = rng.choice([b"", b"", b"\xef\xbb\xbf", b"\xef\xbb\xbf\xef\xbb\xbf"]) + rand_text(rng, 20).encode("utf-8", "surrogatepass") + rng.choice([b"", b"\xff\xfe", b"\xc3"])
     else:
         body = rng.choice(['{"a": "', "", "x="]) + rand_text(rng, 20, nul=for_model_only)
     url = "http://127.0.0.1/" + rand_text(rng, 10, nul=False)
@@ -453,7 +453,7 @@ def end_to_end(chk, rec, n):
             parts["body"] = rng.choice([{"a": t()}, [t(), 1, None], t(), 0, True])
             parts["media_type"] = "application/json"
         else:
-            parts["body"] = rng.choice(["@", "", "x"]) + t(16) if rng.random() < 0.5 else t(16)
+            parts["body"] = rng.choice(["@", "", "x", "\ufeff", "\ufeff\ufeff"]) + t(16) if rng.random() < 0.6 else t(16)
             parts["media_type"] = "text/plain"
         if parts["id"] in (".", ".."):
             parts["id"] = "x"
